@@ -7,22 +7,33 @@ SPEC = {
             "burst (up to 150 templates + 600 in-flight datagrams from 1..5 loopback exporters, IPFIX and NetFlow v9), traffic keeps "
             "arriving for 1.6 s across the stop, SIGTERM or SIGINT at a random offset; checks exit status 0, latency, stderr, both cache "
             "files complete and holding every template sent >= 300 ms before the signal, restart on the same files, data-only datagrams "
-            "decoded at once, second stop; non-trivial = a cycle that passed every check; distinct = distinct cycle description",
+            "decoded at once, second stop. Then stalled stops (32 quick / 200 thorough, plus the witnesses of corpus/C15): the collector "
+            "runs with -cpu-cap 1 under a flood on all four listeners (NetFlow v5, sFlow, IPFIX, NetFlow v9; evenly or nine in twelve to "
+            "one of them), the signal is delivered and the whole process is frozen (SIGSTOP) for 1.2 .. 1.5 s as soon as shutdown() has "
+            "begun, then thawed (what a VM pause or a cgroup freeze does); checks exit status 0, no panic, exit within 6 s of the thaw, "
+            "both cache files complete and holding the templates acknowledged before the signal; non-trivial = a cycle that passed every "
+            "check; distinct = distinct cycle description",
     "assumptions": ["wall-clock behaviour, signal delivery, the non-atomic stop flag and UDP delivery on loopback are the runtime's and the "
                     "kernel's: observed by the e2e cycles, not proved",
-                    "hypothesis H of the model: a datagram already returned by ReadFromUDP is enqueued before close(queue) is reached "
-                    "(without it a send on the closed channel is reachable: C15.close_race_without_H)"],
+                    "no hypothesis on scheduling is left in the model (hypothesis H of the design disappeared with the F21 repair: the read "
+                    "loop closes its own queue); the 1 s sleep / 1 s read deadline fact is used only for 'the dump is taken when the read "
+                    "loop no longer reads' and is an explicit optional assumption of the model (Assume.deadlines)"],
 }
 META = {
-    "text": "Lean: the statements of the four shutdown() functions, the four UDP read loops and main() are regenerated from the source "
-            "(ShutdownIR) and proved canonical; for each generated program the complete state space of all interleavings of read loop and "
-            "shutdown goroutine is enumerated by the kernel: under hypothesis H no send on the closed queue, at most one read completes "
-            "after stop is set, every step after stop decreases a measure (the loop exits, shutdown returns, nothing is stuck), the dump is "
-            "taken after stop + grace period and before the queue is closed; without H the close race is reachable (counterexample). "
-            "Template survival composes with C10 (dump = consistent snapshot) and C11 (load_save). The binary itself is exercised by "
-            "stop/start cycles with traffic in flight.",
-    "ref": "DESIGN.md §6 C15",
-    "note": "Partial: seconds, signals, the kernel and the scheduler are outside the model; H is an explicit hypothesis. Trusted: Lean kernel, "
+    "text": "Lean: the statements of the four shutdown() functions, the four UDP read loops, what follows each loop in run(), every send on / "
+            "close of a UDP work queue anywhere in package vflow, and main() are regenerated from the source (ShutdownIR) and proved canonical "
+            "(shutdown() does not close the queue; the read loop is the only sender and the only closer, and closes after the loop). For "
+            "each generated program the complete state space of all interleavings of read loop and shutdown goroutine is enumerated by the "
+            "kernel: no send on the closed queue and no second close under NO assumption on timing or scheduling (every interleaving of the "
+            "atomic steps; hence also under the hand-off hypothesis and the 1 s-deadline fact), the queue is closed only after the loop has "
+            "been left, at most one read completes after stop is set, every step after stop decreases a measure (the loop exits, the queue "
+            "is closed, run() and shutdown() return, nothing is stuck), the dump is taken after stop + grace period. The programs before the "
+            "F21 repair are kept as constants: there the send on the closed channel is reachable without the hand-off hypothesis, and "
+            "even with it once the process does not run during the grace period (counterexamples). Template survival composes with C10 "
+            "(dump = consistent snapshot) and C11 (load_save). The binary itself is exercised by stop/start cycles with traffic in flight "
+            "and by stops during which the process is frozen for longer than the grace period.",
+    "ref": "DESIGN.md §6 C15, §8 F21",
+    "note": "Partial: seconds, signals, the kernel and the scheduler are outside the model. Trusted: Lean kernel, "
             "factgen statement classification, e2e harness.",
     "technique": "Lean 4 exhaustive (kernel-decided) interleaving analysis of the regenerated stop protocol + end-to-end stop/start cycles of the binary",
 }
